@@ -77,10 +77,9 @@ int g_case; size_t g_tx;
 size_t g_tx_new; _Bool g_tx_kept, g_erase_ran;     /* where std::erase_if put the tracked entry (kept == 0: erased) */
 /* pre-state values bound in requires clauses (an __CPROVER_old of an indexed element is evaluated eagerly) */
 size_t g_key0; void *g_subj0; size_t g_len0; _Bool g_live0, g_match0;
-/* MAP_WRITEBACK (harnesses of functions that modify child nodes): the entry a map iterator is dereferenced at is handed
- * out as a copy in the scratch object g_scr and written back when the iterator moves on / before the map is used again
- * (a write through a pointer with a symbolic offset into the entry array is a byte-level update of the whole array) */
-struct Node *g_scr; _Bool g_scr_valid; size_t g_scr_pos;
+/* MAP_TRACKED (harnesses of functions that modify child nodes, specs/rt_models.h): the tracked child and the scratch
+ * object that stands for any other child */
+struct Node *g_trk, *g_scr;
 _Bool g_thrown;
 static void X_throw(const char *what) { g_thrown = 1; }
 static void *X_operator_new(size_t n) { void *p = malloc(n); __CPROVER_assume(p != 0); return p; }
